@@ -189,6 +189,11 @@ def selectProofsToSend (srt : Sorter) (m : Mint) (proofs : List P) (amount : UIn
 
 /-! ## selectProofsForAmount -/
 
+/-- `selectedProofs, _ = selectProofsToSend(…)`: the error is dropped, and on error the returned proofs are nil. -/
+def SelResult.proofsDroppingError : SelResult → List P
+  | .ok ps => ps
+  | _ => []
+
 /-- What `selectProofsForAmount` has after its `if len(inactiveKeysetProofs) > 0 { … }` block:
     `(selectedProofs, fees)`.  An error of the inner `selectProofsToSend` is dropped (`selectedProofs, _ =`),
     which leaves `selectedProofs` nil. -/
@@ -197,9 +202,7 @@ def inactivePart (srt : Sorter) (m : Mint) (inactive : List P) (amount : UInt64)
   if inactive.length > 0 then
     let selected :=
       if proofsAmount inactive < amount then inactive
-      else match selectProofsToSend srt m inactive amount includeFees with
-        | .ok ps => ps
-        | _ => []
+      else (selectProofsToSend srt m inactive amount includeFees).proofsDroppingError
     (selected, if includeFees then feesForProofs m selected else 0)
   else ([], 0)
 
